@@ -236,6 +236,14 @@ class C10(Prop):
                     return f"row labelled {r.get('model')!r} faces compute_bias row labelled {bmod!r}"
                 if not feq(r["yp"] - r["yo"], bm) and abs(r["yp"] - r["yo"] - bm) > 1e-9:
                     return f"y_pred_mean - y_obs_mean = {r['yp'] - r['yo']!r} differs from compute_bias's bias_mean {bm!r} (model {bmod!r})"
+        if nm > 1 and case["with_pd"]:
+            # the partial dependence does not depend on the forecast column: every model block must carry the same values
+            first = [r["pd"] for r in io["rows"][:per]]
+            for m in range(1, nm):
+                blk = [r["pd"] for r in io["rows"][m * per:(m + 1) * per]]
+                for u, v in zip(first, blk):
+                    if (u is None) != (v is None) or (u is not None and not (feq(u, v) or abs(u - v) < 1e-12)):
+                        return f"partial dependence differs between model blocks 0 and {m}: {first} vs {blk}"
         if nm > 1:
             # the remaining clauses are checked on the first model's block (same feature, same bins)
             io = {**io, "rows": io["rows"][:per], "bias": io.get("bias", [])[:per], "direct": io.get("direct", [])[:per]}
